@@ -241,7 +241,9 @@ func runOne(pc paceCase) result {
 				ci := append(append([]reflds.SecInfo{}, infos...), reflds.SecInfo{Kind: "ca-pk", OID: "0.4.0.127.0.7.2.2.1.2", AlgOID: "0.4.0.127.0.7.1.2",
 					AlgParams: refpki.DER(refpki.Int64(int64(pidForKey))), PubKey: chip.PACE.CAMKey.Point()})
 				cs := reflds.BuildCardSecurity(reflds.CardSecuritySpec{Infos: ci, DigestOID: "2.16.840.1.101.3.4.2.1"})
-				chip.AddMF(0x011D, 0x1D, cs.Bytes, refchip.AccPACESM)
+				if pc.Dev != "cam-cardsecurity-missing" {
+					chip.AddMF(0x011D, 0x1D, cs.Bytes, refchip.AccPACESM)
+				}
 				break
 			}
 		}
@@ -527,6 +529,15 @@ func runOne(pc paceCase) result {
 		return res
 	}
 	// hostile
+	if pc.Dev == "cam-cardsecurity-missing" {
+		// a chip that runs PACE-CAM correctly but has no EF.CardSecurity: the mapping cannot be verified
+		if cr != nil && cr.Success {
+			res.Key, res.What, res.Outcome = "hostile/cam-success-without-cardsecurity", "PaceCamResult successful although the chip has no EF.CardSecurity", "cam-accepted"
+			return res
+		}
+		res.Outcome = "cam-not-successful"
+		return res
+	}
 	if pc.Dev == "ecad-bitflip" {
 		if cr != nil && cr.Success {
 			res.Key, res.What, res.Outcome = "hostile/cam-success-with-altered-ecad", fmt.Sprintf("encrypted chip-authentication data altered (bit %d) but PaceCamResult is successful", pc.Bit), "cam-accepted"
@@ -727,6 +738,11 @@ hostile:
 			pc := base
 			pc.Dev, pc.Bit = "token-length", tl
 			do(sec3, pc, fmt.Sprintf("%s/token-length/%d", lab, tl))
+		}
+		if cf.CAM && c.Mine() {
+			pc := base
+			pc.Dev = "cam-cardsecurity-missing"
+			do(sec3, pc, lab+"/cam-cardsecurity-missing")
 		}
 		if cf.CAM {
 			curve := refpki.CurveByName(refchip.StdCurve(cf.ParamID))
